@@ -32,7 +32,8 @@ LEVEL_TEXT = ("Every call history of up to 3 run() calls (12 argument variants) 
               "state; cross-process and hash-seed equality on a stated finite seed set. Bounded model checking of the implementation, "
               "no abstraction gap."
               " Inputs are chosen so that every per-run scanner variable and lexer carrier is left in a non-default state by some input (measured after the first run; an unperturbed variable is a harness error); all ordered input pairs are also run on two successive objects in one process and compared with digests computed by brand-new interpreters, and a case that fails only inside a long-lived worker is itself reported."
-              ' Wave 6: foreign-key columns the table does not declare, under 5 hash seeds.')
+              ' Wave 6: foreign-key columns the table does not declare, under 5 hash seeds.'
+              " Wave 7 (scale): for every input one history of 40 (thorough 150) identical calls per run() variant and three histories cycling through the variants, every prefix checked; an input in which 14 supported and 14 unsupported statements alternate.")
 LEVEL_NOTE = ("Assumes state relevant to repeatability is reachable within 3 calls (all accumulators are per-object lists/strings "
               "reset or not per run); hash-seed independence only on seeds {0,1,2,3,VERIF_SEED}.")
 ASSUMPTIONS = ["reference results are computed on fresh objects before the object under test is constructed",
@@ -65,6 +66,9 @@ INPUTS = {
     "fk_undecl": ("CREATE TABLE t (a int);\nALTER TABLE t ADD CONSTRAINT f FOREIGN KEY (x1, y2, z3, w4) REFERENCES o (p, q, r, s);", {}),
     "alter_only": ("ALTER TABLE t ADD CONSTRAINT u9 UNIQUE (a);\nCREATE INDEX i9 ON t (a);", {}),
     "alter_only_s": ("ALTER TABLE s.t ADD COLUMN z int;", {}),
+    # wave 7: a script in which supported and unsupported statements alternate 14 times (anything counted per OBJECT instead of per run shows
+    # after a few calls), with comments
+    "many_unknown": ("\n".join("CREATE TABLE mu%d (a int, b varchar(%d)); -- note %d\nANALYZE mu%d;" % (i, i + 1, i, i) for i in range(14)), {}),
 }
 SCAN_VARS = ["set_line", "set_was_in_line", "multi_line_comment", "statement", "block_comments", "skip", "new_statement"]
 OPS = [dict(output_mode=m, group_by_type=g, json_dump=j)
@@ -74,7 +78,7 @@ CARRIERS = ["is_table", "sequence", "last_token", "columns_def", "after_columns"
 
 
 def bounds(tier):
-    return {"history_depth": "3 over 12 run() variants, 4 over 6" if tier == "thorough" else 3, "ops": len(OPS) if tier == "thorough" else "12 for depth<=2, 6 for depth 3",
+    return {"history_depth": "3 over 12 run() variants, 4 over 6" if tier == "thorough" else 3, "long_history_length": 150 if tier == "thorough" else 40, "ops": len(OPS) if tier == "thorough" else "12 for depth<=2, 6 for depth 3",
             "cross_object_chains": "all ordered pairs and triples of inputs" if tier == "thorough" else "all ordered pairs of inputs",
             "inputs": len(INPUTS), "hash_seeds": 5}
 
@@ -92,6 +96,13 @@ def gen_cases(tier):
     for nme in names:
         for h in hists:
             cases.append({"kind": "hist", "input": nme, "hist": h})
+        # scale sweep: one long history per run() variant (the same call 40 times; thorough 150) and three that cycle through the variants;
+        # every prefix is checked on the way
+        n = 150 if tier == "thorough" else 40
+        for k in range(len(OPS)):
+            cases.append({"kind": "hist", "input": nme, "hist": [k] * n})
+        for step in (1, 5, 7):
+            cases.append({"kind": "hist", "input": nme, "hist": [(i * step) % len(OPS) for i in range(n)]})
     for i, rec in enumerate(load_corpus()):
         ctor = {k: v for k, v in rec["init"].items() if k in ("normalize_names", "silent")}
         cases.append({"kind": "corpus", "idx": i, "ddl": rec["ddl"], "ctor": ctor, "run": rec["run"]})
